@@ -389,8 +389,19 @@ def _pram(ctx):
                     m2 = strip_np(m_)
                     if isinstance(m2, ast.Compare):
                         masks.append((m2, ast.Assign(targets=[stores["k"].targets[0]], value=val_, lineno=stores["k"].lineno)))
+    if len(masks) != 2 and "k" in stores:
+        # third accepted idiom: nested np.where over the two masks with the 0.0 fallback innermost
+        v = inline_single_defs(f.node, stores["k"].value)
+        found = []
+        while isinstance(v, ast.Call) and call_name(v) == "np.where" and len(v.args) == 3:
+            found.append((strip_np(v.args[0]), v.args[1]))
+            v = v.args[2]
+        if len(found) == 2 and const_value(v) in (0, 0.0) and all(isinstance(m_, ast.Compare) for m_, _ in found):
+            masks = [(m_, ast.Assign(targets=[stores["k"].targets[0]], value=val_, lineno=stores["k"].lineno)) for m_, val_ in found]
     if len(masks) != 2 or "discriminant" not in stores or "P_RAM" not in stores:
         raise AnalysisError("P_RAM._compute_values: k masks / discriminant / P_RAM stores not found")
+    masks = [(inline_single_defs(f.node, m_), ast.Assign(targets=st_.targets, value=inline_single_defs(f.node, st_.value),
+                                                          lineno=st_.lineno)) for m_, st_ in masks]
     stores = dict(stores)
     for key_ in ("discriminant", "P_RAM"):
         st_ = stores[key_]
@@ -437,7 +448,7 @@ def _pram(ctx):
         else:
             ctx.violated(f, stores["discriminant"], "discriminant is %r, expected S_a + k S_m" % disc)
         w = _where_tree(stores["P_RAM"].value)
-        ok = w[0] == "where" and norm_text(w[1]) in ("self._collective['discriminant'] >= 0",) and const_value(w[3][1]) in (0, 0.0)
+        ok = w[0] == "where" and _same_cmp(w[1], "self._collective['discriminant'] >= 0") and const_value(w[3][1]) in (0, 0.0)
         rad = None
         if ok and isinstance(w[2][1], ast.Call) and call_name(w[2][1]) == "np.sqrt":
             rad = to_nf(w[2][1].args[0], atom=atom)
